@@ -1101,9 +1101,11 @@ package kapacitor
 // its task name in the inner map of every key it subscribed to. So a point reaches a task once
 // iff the second walk skips the task names the first walk already served. The edges' own
 // delivery is trusted; the contract pins down which names are served in each walk.
+// Specification-only delivery counter on an edge value: Collect adds one.
 //@ func =(github.com/influxdata/kapacitor/edge.Edge).Collect
 //@   trusted
-//@   modifies nothing
+//@   modifies gfi(recv, got, int)
+//@   ensures gfi(recv, got, int) == old(gfi(recv, got, int)) + 1
 //@ func =(github.com/influxdata/kapacitor/edge.PointMessage).Database
 //@   trusted
 //@   pure
@@ -1113,9 +1115,35 @@ package kapacitor
 //@ func (*TaskMaster).forkPoint$1
 //@   trusted
 //@   modifies nothing
+// Representation invariant of the fork table (kept by newFork/delFork: every newFork call makes
+// one new edge and stores it under the task's name only): an edge determines the task name, in
+// one inner map and across inner maps; and no entry is nil.
+//@ spec forksOK(tm *TaskMaster) bool =
+//@     (forall k forkKey, n string :: has(tm.forks, k) && has(tm.forks[k], n) ==> tm.forks[k][n] != nil)
+//@     && (forall k1 forkKey, n1 string, k2 forkKey, n2 string :: has(tm.forks, k1) && has(tm.forks[k1], n1) && has(tm.forks, k2) && has(tm.forks[k2], n2)
+//@            && tm.forks[k1][n1] == tm.forks[k2][n2] ==> n1 == n2)
+
+//@ spec fkey(p edge.PointMessage) forkKey = forkKey{Database: p.Database(), RetentionPolicy: p.RetentionPolicy(), Measurement: p.Name()}
+//@ spec ekey(p edge.PointMessage) forkKey = forkKey{Database: p.Database(), RetentionPolicy: p.RetentionPolicy(), Measurement: ""}
+
 //@ func (*TaskMaster).forkPoint
 //@   props C02
-//@   requires tm != nil && p != nil && tm.forkStats != nil
-//@   requires forall k forkKey, n string :: has(tm.forks, k) && has(tm.forks[k], n) ==> tm.forks[k][n] != nil
+//@   requires tm != nil && p != nil && tm.forkStats != nil && forksOK(tm)
 //@   guardcall Collect#1: arg0 == p && !has(tm.forks[key], _k) && _k == name
 //@   guardcall Collect#2: arg0 == p
+//@   ensures [subscribed-once] forall n string :: has(old(tm.forks[fkey(p)]), n) ==>
+//@       gfi(old(tm.forks[fkey(p)][n]), got, int) == old(gfi(tm.forks[fkey(p)][n], got, int)) + 1
+//@   ensures [unfiltered-once] forall n string :: has(old(tm.forks[ekey(p)]), n) && !has(old(tm.forks[fkey(p)]), n) ==>
+//@       gfi(old(tm.forks[ekey(p)][n]), got, int) == old(gfi(tm.forks[ekey(p)][n], got, int)) + 1
+//@   loop 1
+//@     modifies gfall(got, int)
+//@     invariant served == tm.forks[key]
+//@     invariant forall n string :: has(served, n) && seen(n) ==> gfi(served[n], got, int) == before(gfi(served[n], got, int)) + 1
+//@     invariant forall n string :: has(served, n) && !seen(n) ==> gfi(served[n], got, int) == before(gfi(served[n], got, int))
+//@     invariant forall n string :: has(tm.forks[emptyMeasurementKey], n) && !has(served, n) ==> gfi(tm.forks[emptyMeasurementKey][n], got, int) == before(gfi(tm.forks[emptyMeasurementKey][n], got, int))
+//@   loop 2
+//@     modifies gfall(got, int)
+//@     invariant served == tm.forks[key]
+//@     invariant forall n string :: has(served, n) ==> gfi(served[n], got, int) == before(gfi(served[n], got, int))
+//@     invariant forall n string :: has(tm.forks[emptyMeasurementKey], n) && !has(served, n) && seen(n) ==> gfi(tm.forks[emptyMeasurementKey][n], got, int) == before(gfi(tm.forks[emptyMeasurementKey][n], got, int)) + 1
+//@     invariant forall n string :: has(tm.forks[emptyMeasurementKey], n) && !has(served, n) && !seen(n) ==> gfi(tm.forks[emptyMeasurementKey][n], got, int) == before(gfi(tm.forks[emptyMeasurementKey][n], got, int))
